@@ -119,6 +119,9 @@ def step (cfg : Cfg) (m : KV) : Cmd → KV × Reply
     | some e => (m, .info e.ver (if e.ver > 0 then Ref.vhash e.body else 0) e.flag e.body.length e.ts)
     | none => (m, .miss)
 
+/-- what a tree rebuild does to the reference: tombstones are intentionally dropped (C02) -/
+def dropTombstones (m : KV) : KV := m.filter (fun p => decide (p.2.ver > 0))
+
 def run (cfg : Cfg) : KV → List Cmd → KV × List Reply
   | m, [] => (m, [])
   | m, c :: cs =>
